@@ -175,6 +175,10 @@ bool Instance::parse_pretend_valid_expr(const char* expr) {
         }
         p = c = c + (*c != 0);
     }
+    if (got_sig) {
+        fprintf(stderr, "parse error (signature without a public key) at the end of %s\n", expr);
+        return false;
+    }
     return true;
 }
 
